@@ -17,7 +17,7 @@ def tla_pairs(ps):
 
 
 def putops_module(name, procs=('p1', 'p2'), cands=('t',), slots=('n', 'n1', 'n2'), rand=('r1', 'r2'), preinfo=(), prepay=(),
-                  dirs_exist=(), copy_cands=(), max_faults=0, sticky=(), mutant='none'):
+                  dirs_exist=(), copy_cands=(), max_faults=0, sticky=(), mutant='none', toolong=()):
     return '''---- MODULE %s ----
 EXTENDS PutOps
 MC_Procs == %s
@@ -29,17 +29,18 @@ MC_PrePay == %s
 MC_DirsExist == %s
 MC_CopyCands == %s
 MC_Sticky == %s
+MC_TooLong == %s
 ====
 ''' % (name, tla_set(map(tla_str, procs)), ', '.join(map(tla_str, cands)), ', '.join(map(tla_str, slots)),
        tla_set(map(tla_str, rand)), tla_pairs(preinfo), tla_pairs(prepay), tla_set(map(tla_str, dirs_exist)),
-       tla_set(map(tla_str, copy_cands)), tla_pairs(sticky))
+       tla_set(map(tla_str, copy_cands)), tla_pairs(sticky), tla_set(map(tla_str, toolong)))
 
 
 def putops_cfg(max_faults=0, mutant='none', invariants=(), liveness=True):
     lines = ['SPECIFICATION Spec',
              'CONSTANTS Procs <- MC_Procs Cands <- MC_Cands Slots <- MC_Slots RandSlots <- MC_RandSlots',
              'CONSTANTS PreInfo <- MC_PreInfo PrePay <- MC_PrePay DirsExist <- MC_DirsExist CopyCands <- MC_CopyCands',
-             'CONSTANTS Sticky <- MC_Sticky MaxFaults = %d Mutant = "%s"' % (max_faults, mutant)]
+             'CONSTANTS Sticky <- MC_Sticky TooLong <- MC_TooLong MaxFaults = %d Mutant = "%s"' % (max_faults, mutant)]
     for i in invariants:
         lines.append('INVARIANT %s' % i)
     if liveness:
@@ -91,7 +92,7 @@ MC_Empty == {}
 ''' % tla_set(map(tla_str, sorted(slots)))
     cfg = ('INIT InitF\nNEXT NextF\nCONSTANTS Procs <- MC_Procs Cands <- MC_Cands Slots <- MC_Slots RandSlots <- MC_RandSlots\n'
            'CONSTANTS PreInfo <- MC_Empty PrePay <- MC_Empty DirsExist <- MC_Empty CopyCands <- MC_Empty Sticky <- MC_Empty\n'
-           'CONSTANTS MaxFaults = 0 Mutant = "none"\nCHECK_DEADLOCK FALSE\n')
+           'CONSTANTS TooLong <- MC_Empty MaxFaults = 0 Mutant = "none"\nCHECK_DEADLOCK FALSE\n')
     d = tempfile.mkdtemp(prefix='vfs-', dir='/dev/shm' if os.path.isdir('/dev/shm') else None)
     try:
         p = os.path.join(d, 'obs.json')
@@ -198,7 +199,7 @@ def events_of_steps(box, steps):
     return evs
 
 
-def validate_put_traces(traces, procs, preinfo=(), prepay=(), dirs_exist=False, workers=4, timeout=900):
+def validate_put_traces(traces, procs, preinfo=(), prepay=(), dirs_exist=False, workers=4, timeout=900, toolong=()):
     """traces: list of event lists of ONE scenario -> (TlcResult, accepted 1-based ids)"""
     import json, os, re, shutil, tempfile
     slots = ['n'] + ['n%d' % i for i in range(1, 9)]
@@ -211,13 +212,14 @@ MC_RandSlots == {}
 MC_PreInfo == %s
 MC_PrePay == %s
 MC_DirsExist == %s
+MC_TooLong == %s
 MC_Empty == {}
 ====
 ''' % (tla_set(map(tla_str, procs)), ', '.join(map(tla_str, slots)), tla_pairs(preinfo), tla_pairs(prepay),
-       '{"t1"}' if dirs_exist else '{}')
+       '{"t1"}' if dirs_exist else '{}', tla_set(map(tla_str, toolong)))
     cfg = ('INIT InitT\nNEXT NextT\nCONSTANTS Procs <- MC_Procs Cands <- MC_Cands Slots <- MC_Slots RandSlots <- MC_RandSlots\n'
            'CONSTANTS PreInfo <- MC_PreInfo PrePay <- MC_PrePay DirsExist <- MC_DirsExist CopyCands <- MC_Empty Sticky <- MC_Empty\n'
-           'CONSTANTS MaxFaults = 0 Mutant = "none"\n'
+           'CONSTANTS TooLong <- MC_TooLong MaxFaults = 0 Mutant = "none"\n'
            'INVARIANT ReportAccept\nINVARIANT NoOverwrite\nINVARIANT UniqueOwnership\nINVARIANT InfoBeforePayload\n'
            'INVARIANT NothingLost\nINVARIANT FinalStateIsC01\nINVARIANT PreKept\nCHECK_DEADLOCK FALSE\n')
     d = tempfile.mkdtemp(prefix='vpt-', dir='/dev/shm' if os.path.isdir('/dev/shm') else None)
